@@ -14,6 +14,18 @@
 //!                               REFS 1 = a second handle to the input Bytes is not unique after the result was dropped
 //!                               ... HELD <live heap blocks while the result is held, above the level before the decode>
 //!                               HREFS <0|1> (1 = the result references the input buffer)
+//!   dec / decq / merge / mergeq / declen / lendelim additionally run the same call over NON-CONTIGUOUS layouts of the
+//!   same bytes (two chunks cut at every position of short inputs / after continuation bytes and at pseudo-random
+//!   positions of long ones, through a multi-chunk Buf and through Buf::chain; pieces of 1, 2, 3, 7 bytes; a VecDeque<u8>
+//!   that wraps around) and append ` ORACLE-FAIL <layout> gives <answer>` when the answer (value re-encoded / error
+//!   class) differs from the contiguous one
+//!   grp    <idx> <opt> <req> <many> <tail>   the group codec (pilota::prost::encoding::group) through the hand-written
+//!                               GroupHolder<M> below (M = message <idx>): <opt> = hex of an encoding of M | ~ (absent),
+//!                               <req> = hex, <many> = hex,hex,.. | ~ (none), <tail> = u32.  The parts are decoded to build
+//!                               the holder, which is encoded, measured and decoded again:
+//!                               OK L<encoded_len> E<hex> P<peak> I <parts as pilota re-encodes them> B <parts read back>
+//!                               (parts = <opt|~> <req> <many|~> <tail>)
+//!   grpdec <idx> <hex>          GroupHolder::<M>::decode: OK L E P B <parts> | ERR <class> P
 //!   info   <idx>                NAME <proto name> SIZE <size_of>
 //!   count                       N <number of message types>
 //!
@@ -33,8 +45,68 @@ use std::{
     sync::atomic::{AtomicUsize, Ordering::Relaxed},
 };
 
-use bytes::{Bytes, BytesMut};
-use pilota::prost::Message;
+use bytes::{Buf, BufMut, Bytes, BytesMut};
+use pilota::prost::encoding::{self as enc, DecodeContext, WireType};
+use pilota::prost::{DecodeError, Message};
+
+/// A hand-written message (pilota-build cannot emit group fields; the runtime codec `encoding::group` is public API):
+/// an optional, a required and a repeated GROUP field whose body is the generated message M, and a scalar behind them.
+#[derive(Debug, Default, Clone, PartialEq)]
+pub struct GroupHolder<M> {
+    pub opt: Option<M>, // group, field 3
+    pub req: M,         // group, field 4 (always written)
+    pub many: Vec<M>,   // group, field 1000 (two-byte key)
+    pub tail: u32,      // uint32, field 1001 (always written)
+}
+
+impl<M: Message + Default> Message for GroupHolder<M> {
+    fn encode_raw<B>(&self, buf: &mut B)
+    where
+        B: BufMut,
+        Self: Sized,
+    {
+        if let Some(m) = &self.opt {
+            enc::group::encode(3, m, buf);
+        }
+        enc::group::encode(4, &self.req, buf);
+        enc::group::encode_repeated(1000, &self.many, buf);
+        enc::uint32::encode(1001, &self.tail, buf);
+    }
+
+    fn merge_field<B>(&mut self, tag: u32, wire_type: WireType, buf: &mut B, ctx: DecodeContext) -> Result<(), DecodeError>
+    where
+        B: Buf,
+        Self: Sized,
+    {
+        match tag {
+            3 => enc::group::merge(3, wire_type, self.opt.get_or_insert_with(Default::default), buf, ctx),
+            4 => enc::group::merge(4, wire_type, &mut self.req, buf, ctx),
+            1000 => enc::group::merge_repeated(1000, wire_type, &mut self.many, buf, ctx),
+            1001 => enc::uint32::merge(wire_type, &mut self.tail, buf, ctx),
+            _ => enc::skip_field(wire_type, tag, buf, ctx),
+        }
+    }
+
+    fn encoded_len(&self) -> usize {
+        self.opt.as_ref().map_or(0, |m| enc::group::encoded_len(3, m))
+            + enc::group::encoded_len(4, &self.req)
+            + enc::group::encoded_len_repeated(1000, &self.many)
+            + enc::uint32::encoded_len(1001, &self.tail)
+    }
+}
+
+fn holder_parts<M: Message>(h: &GroupHolder<M>) -> String {
+    let opt = match &h.opt {
+        Some(m) => hex(&m.encode_to_vec()),
+        None => "~".to_string(),
+    };
+    let many = if h.many.is_empty() {
+        "~".to_string()
+    } else {
+        h.many.iter().map(|m| hex(&m.encode_to_vec())).collect::<Vec<_>>().join(",")
+    };
+    format!("{} {} {} {}", opt, hex(&h.req.encode_to_vec()), many, h.tail)
+}
 
 pub struct Counting;
 static LIVE: AtomicUsize = AtomicUsize::new(0);
@@ -96,6 +168,8 @@ pub enum Op {
     Merge { a: Vec<u8>, b: Vec<u8>, quiet: bool },
     DecLen { data: Vec<u8> },
     Leak { data: Vec<u8> },
+    Grp { opt: Option<Vec<u8>>, req: Vec<u8>, many: Vec<Vec<u8>>, tail: u32 },
+    GrpDec { data: Vec<u8> },
     Info,
 }
 
@@ -128,7 +202,7 @@ fn unhex(s: &str) -> Result<Vec<u8>, String> {
     Ok(out)
 }
 
-fn err_class(e: &pilota::prost::DecodeError) -> &'static str {
+fn err_class(e: &DecodeError) -> &'static str {
     let s = e.to_string();
     // the description is the tail of the Display text (after the "Msg.field: " location stack)
     for (pat, cls) in [
@@ -186,6 +260,158 @@ fn render_ok<T: Message + Debug>(m: &T, pk: &Peak, quiet: bool) -> String {
     s
 }
 
+// ---------------------------------------------------------------- non-contiguous buffers
+struct Chunks {
+    parts: std::collections::VecDeque<Bytes>,
+}
+impl Buf for Chunks {
+    fn remaining(&self) -> usize {
+        self.parts.iter().map(|p| p.len()).sum()
+    }
+    fn chunk(&self) -> &[u8] {
+        match self.parts.front() {
+            Some(p) => p,
+            None => &[],
+        }
+    }
+    fn advance(&mut self, mut cnt: usize) {
+        while cnt > 0 {
+            let front = self.parts.front_mut().expect("advance past the end");
+            if cnt < front.len() {
+                front.advance(cnt);
+                return;
+            }
+            cnt -= front.len();
+            self.parts.pop_front();
+        }
+        while matches!(self.parts.front(), Some(p) if p.is_empty()) {
+            self.parts.pop_front();
+        }
+    }
+}
+
+enum Layout {
+    Split(usize),
+    Chain(usize),
+    Pieces(usize),
+    Deque(usize),
+}
+
+impl Layout {
+    fn name(&self) -> String {
+        match self {
+            Layout::Split(k) => format!("two chunks cut at {k}"),
+            Layout::Chain(k) => format!("Buf::chain cut at {k}"),
+            Layout::Pieces(s) => format!("pieces of {s}"),
+            Layout::Deque(r) => format!("VecDeque<u8> wrapping at {r}"),
+        }
+    }
+    fn run<R>(&self, data: &[u8], f: &dyn Fn(&mut dyn Buf) -> R) -> R {
+        match *self {
+            Layout::Split(k) => {
+                let mut c = Chunks { parts: [Bytes::copy_from_slice(&data[..k]), Bytes::copy_from_slice(&data[k..])].into_iter().collect() };
+                f(&mut c)
+            }
+            Layout::Chain(k) => {
+                let mut c = Bytes::copy_from_slice(&data[..k]).chain(Bytes::copy_from_slice(&data[k..]));
+                f(&mut c)
+            }
+            Layout::Pieces(s) => {
+                let mut c = Chunks { parts: data.chunks(s.max(1)).map(Bytes::copy_from_slice).collect() };
+                f(&mut c)
+            }
+            Layout::Deque(r) => {
+                // head moved to r in a ring of exactly data.len() slots: the content wraps around the end
+                let mut d: std::collections::VecDeque<u8> = std::collections::VecDeque::with_capacity(data.len());
+                for _ in 0..r {
+                    d.push_back(0);
+                }
+                for _ in 0..r {
+                    d.pop_front();
+                }
+                d.extend(data.iter().copied());
+                f(&mut d)
+            }
+        }
+    }
+}
+
+fn layouts(data: &[u8]) -> Vec<Layout> {
+    let n = data.len();
+    let mut out = vec![];
+    if n < 2 {
+        return out;
+    }
+    let mut cuts: Vec<usize> = if n <= 40 {
+        (1..n).collect()
+    } else {
+        // after continuation bytes (inside multi-byte varints), plus pseudo-random positions
+        let mut v: Vec<usize> = (1..n).filter(|&k| data[k - 1] & 0x80 != 0).take(if n <= 4096 { 24 } else { 6 }).collect();
+        let mut x = (n as u64).wrapping_mul(2654435761).wrapping_add(data[0] as u64);
+        for _ in 0..(if n <= 4096 { 8 } else { 3 }) {
+            x = x.wrapping_mul(6364136223846793005).wrapping_add(1442695040888963407);
+            v.push(1 + ((x >> 33) as usize) % (n - 1));
+        }
+        v
+    };
+    cuts.sort();
+    cuts.dedup();
+    for (j, &k) in cuts.iter().enumerate() {
+        out.push(Layout::Split(k));
+        if n <= 40 || j % 3 == 0 {
+            out.push(Layout::Chain(k));
+        }
+    }
+    let sizes: &[usize] = if n <= 256 { &[1, 2, 3, 7] } else if n <= 4096 { &[3, 64] } else { &[64] };
+    for &s in sizes {
+        if s < n {
+            out.push(Layout::Pieces(s));
+        }
+    }
+    out.push(Layout::Deque(n / 2));
+    out
+}
+
+/// ` ORACLE-FAIL ...` if under some layout of `data` the call answers differently (f returns what it answered then)
+fn layout_check(data: &[u8], f: &dyn Fn(&mut dyn Buf) -> Option<String>) -> String {
+    for l in layouts(data) {
+        if let Some(s) = l.run(data, f) {
+            return format!(" ORACLE-FAIL chunked buffer ({}) gives {}", l.name(), s);
+        }
+    }
+    String::new()
+}
+
+/// equal values: PartialEq; for values holding a NaN (never equal to themselves) the encodings -- whose map entries come
+/// in the iteration order of each hash map instance -- are compared as byte multisets
+fn same<T: Message + PartialEq>(a: &T, b: &T) -> bool {
+    if a == b {
+        return true;
+    }
+    let (ea, eb) = (a.encode_to_vec(), b.encode_to_vec());
+    if ea == eb {
+        return true;
+    }
+    #[allow(clippy::eq_op)]
+    if a != a {
+        let (mut sa, mut sb) = (ea, eb);
+        sa.sort();
+        sb.sort();
+        return sa == sb;
+    }
+    false
+}
+
+/// None if `other` is the answer `main`, else a rendering of `other`
+fn differs<T: Message + PartialEq>(main: &Result<T, DecodeError>, other: &Result<T, DecodeError>) -> Option<String> {
+    match (main, other) {
+        (Ok(a), Ok(b)) if same(a, b) => None,
+        (Err(a), Err(b)) if err_class(a) == err_class(b) => None,
+        (_, Ok(b)) => Some(format!("OK E{}", hex(&b.encode_to_vec()))),
+        (_, Err(b)) => Some(format!("ERR {}", err_class(b))),
+    }
+}
+
 /// one measurement: live heap bytes before the input exists vs after result and input are gone
 fn leak_once<T: Message + Default>(data: &[u8]) -> (&'static str, i64, u8, i64, u8) {
     let before = LIVE.load(Relaxed) as i64;
@@ -206,7 +432,7 @@ fn leak_once<T: Message + Default>(data: &[u8]) -> (&'static str, i64, u8, i64, 
     (st, after - before, refs, held, hrefs)
 }
 
-fn run_op<T: Message + Default + Debug>(op: &Op) -> String {
+fn run_op<T: Message + Default + Debug + Clone + PartialEq>(op: &Op) -> String {
     match op {
         Op::Info => format!("SIZE {}", std::mem::size_of::<T>()),
         Op::Leak { data } => {
@@ -216,21 +442,104 @@ fn run_op<T: Message + Default + Debug>(op: &Op) -> String {
             let (st, live, refs, held, hrefs) = leak_once::<T>(data);
             format!("{} LIVE {} REFS {} HELD {} HREFS {}", st, live, refs, held, hrefs)
         }
+        Op::Grp { opt, req, many, tail } => {
+            let part = |b: &Vec<u8>| T::decode(Bytes::from(b.clone()));
+            let mut h = GroupHolder::<T> { opt: None, req: T::default(), many: vec![], tail: *tail };
+            if let Some(b) = opt {
+                match part(b) {
+                    Ok(m) => h.opt = Some(m),
+                    Err(e) => return format!("BADCASE the optional part does not decode: {}", err_class(&e)),
+                }
+            }
+            match part(req) {
+                Ok(m) => h.req = m,
+                Err(e) => return format!("BADCASE the required part does not decode: {}", err_class(&e)),
+            }
+            for b in many {
+                match part(b) {
+                    Ok(m) => h.many.push(m),
+                    Err(e) => return format!("BADCASE a repeated part does not decode: {}", err_class(&e)),
+                }
+            }
+            let pk = Peak::start();
+            let len = h.encoded_len();
+            let e = h.encode_to_vec();
+            let peak = pk.get();
+            let mut fails: Vec<String> = vec![];
+            // the helpers on their own: what is reported is what is written
+            let mut b1 = BytesMut::new();
+            enc::group::encode_repeated(1000, &h.many, &mut b1);
+            let l1 = enc::group::encoded_len_repeated(1000, &h.many);
+            if b1.len() != l1 {
+                fails.push(format!("group::encoded_len_repeated reports {} but group::encode_repeated wrote {} bytes", l1, b1.len()));
+            }
+            for m in h.opt.iter().chain(std::iter::once(&h.req)).chain(h.many.iter()) {
+                let mut b2 = BytesMut::new();
+                enc::group::encode(3, m, &mut b2);
+                let l2 = enc::group::encoded_len(3, m);
+                if b2.len() != l2 {
+                    fails.push(format!("group::encoded_len reports {} but group::encode wrote {} bytes", l2, b2.len()));
+                    break;
+                }
+            }
+            // Message::encode into a buffer of exactly encoded_len() bytes
+            let mut exact = vec![0u8; len];
+            {
+                let mut slice: &mut [u8] = &mut exact[..];
+                match h.encode(&mut slice) {
+                    Ok(()) => {
+                        let left = slice.len();
+                        if left != 0 || exact[..] != e[..] {
+                            fails.push(format!("Message::encode into a buffer of encoded_len() = {} bytes left {} unused / wrote different bytes", len, left));
+                        }
+                    }
+                    Err(err) => fails.push(format!("Message::encode into a buffer of encoded_len() bytes failed: {err}")),
+                }
+            }
+            let back = GroupHolder::<T>::decode(Bytes::from(e.clone()));
+            let b = match &back {
+                Ok(h2) => holder_parts(h2),
+                Err(err) => format!("ERR {}", err_class(err)),
+            };
+            let mut s = format!("OK L{} E{} P{} I {} B {}", len, hex(&e), peak, holder_parts(&h), b);
+            if !fails.is_empty() {
+                s.push_str(&format!(" ORACLE-FAIL {}", fails.join("; ")));
+            }
+            s + &layout_check(&e, &|buf: &mut dyn Buf| differs(&back, &GroupHolder::<T>::decode(buf)))
+        }
+        Op::GrpDec { data } => {
+            let pk = Peak::start();
+            let r = GroupHolder::<T>::decode(Bytes::from(data.clone()));
+            let s = match &r {
+                Ok(h) => format!("OK L{} E{} P{} B {}", h.encoded_len(), hex(&h.encode_to_vec()), pk.get(), holder_parts(h)),
+                Err(e) => format!("ERR {} P{}", err_class(e), pk.get()),
+            };
+            s + &layout_check(data, &|buf: &mut dyn Buf| differs(&r, &GroupHolder::<T>::decode(buf)))
+        }
         Op::Dec { data, quiet } => {
             let input = Bytes::from(data.clone());
             let pk = Peak::start();
-            match T::decode(input) {
-                Ok(m) => render_ok(&m, &pk, *quiet),
-                Err(e) => format!("ERR {} P{}", err_class(&e), pk.get()),
-            }
+            let r = T::decode(input);
+            let s = match &r {
+                Ok(m) => render_ok(m, &pk, *quiet),
+                Err(e) => format!("ERR {} P{}", err_class(e), pk.get()),
+            };
+            s + &layout_check(data, &|b: &mut dyn Buf| differs(&r, &T::decode(b)))
         }
         Op::DecLen { data } => {
             let input = Bytes::from(data.clone());
             let pk = Peak::start();
-            match T::decode_length_delimited(input) {
-                Ok(m) => render_ok(&m, &pk, true),
-                Err(e) => format!("ERR {} P{}", err_class(&e), pk.get()),
-            }
+            let r = T::decode_length_delimited(input);
+            let s = match &r {
+                Ok(m) => render_ok(m, &pk, true),
+                Err(e) => format!("ERR {} P{}", err_class(e), pk.get()),
+            };
+            // decode_length_delimited and merge_length_delimited (into a default value)
+            s + &layout_check(data, &|b: &mut dyn Buf| differs(&r, &T::decode_length_delimited(b)))
+                + &layout_check(data, &|b: &mut dyn Buf| {
+                    let mut m = T::default();
+                    differs(&r, &m.merge_length_delimited(b).map(|()| m))
+                })
         }
         Op::Merge { a, b, quiet } => {
             let ia = Bytes::from(a.clone());
@@ -238,10 +547,18 @@ fn run_op<T: Message + Default + Debug>(op: &Op) -> String {
             let pk = Peak::start();
             match T::decode(ia) {
                 Err(e) => format!("ERR {} P{}", err_class(&e), pk.get()),
-                Ok(mut m) => match Message::merge(&mut m, ib) {
-                    Ok(()) => render_ok(&m, &pk, *quiet),
-                    Err(e) => format!("ERR {} P{}", err_class(&e), pk.get()),
-                },
+                Ok(m0) => {
+                    let mut m = m0.clone();
+                    let r = Message::merge(&mut m, ib).map(|()| m);
+                    let s = match &r {
+                        Ok(m) => render_ok(m, &pk, *quiet),
+                        Err(e) => format!("ERR {} P{}", err_class(e), pk.get()),
+                    };
+                    s + &layout_check(b, &|buf: &mut dyn Buf| {
+                        let mut m = m0.clone();
+                        differs(&r, &Message::merge(&mut m, buf).map(|()| m))
+                    })
+                }
             }
         }
     }
@@ -267,6 +584,19 @@ fn run_line(line: &str) -> Result<String, String> {
         "mergeq" => (idx(1)?, Op::Merge { a: bytes_at(2)?, b: bytes_at(3)?, quiet: true }),
         "declen" => (idx(1)?, Op::DecLen { data: bytes_at(2)? }),
         "leak" => (idx(1)?, Op::Leak { data: bytes_at(2)? }),
+        "grp" => {
+            let opt = match *t.get(2).ok_or("missing optional part")? {
+                "~" => None,
+                h => Some(unhex(h)?),
+            };
+            let many = match *t.get(4).ok_or("missing repeated part")? {
+                "~" => vec![],
+                l => l.split(',').map(unhex).collect::<Result<Vec<_>, _>>()?,
+            };
+            let tail = t.get(5).ok_or("missing tail")?.parse::<u32>().map_err(|e| e.to_string())?;
+            (idx(1)?, Op::Grp { opt, req: bytes_at(3)?, many, tail })
+        }
+        "grpdec" => (idx(1)?, Op::GrpDec { data: bytes_at(2)? }),
         "info" => {
             let i = idx(1)?;
             let r = dispatch(i, &Op::Info).ok_or("no such message index")?;
@@ -274,12 +604,20 @@ fn run_line(line: &str) -> Result<String, String> {
         }
         "count" => return Ok(format!("N {}", MESSAGE_NAMES.len())),
         "lendelim" => {
-            let input = Bytes::from(bytes_at(1)?);
+            let data = bytes_at(1)?;
+            let input = Bytes::from(data.clone());
             let pk = Peak::start();
-            return Ok(match pilota::prost::decode_length_delimiter(input) {
-                Ok(n) => format!("OK L{} P{}", n, pk.get()),
-                Err(e) => format!("ERR {} P{}", err_class(&e), pk.get()),
-            });
+            let r = pilota::prost::decode_length_delimiter(input);
+            let show = |r: &Result<usize, pilota::prost::DecodeError>| match r {
+                Ok(n) => format!("OK L{}", n),
+                Err(e) => format!("ERR {}", err_class(e)),
+            };
+            let main = show(&r);
+            let s = format!("{} P{}", main, pk.get());
+            return Ok(s + &layout_check(&data, &|b: &mut dyn Buf| {
+                let o = show(&pilota::prost::decode_length_delimiter(b));
+                if o == main { None } else { Some(o) }
+            }));
         }
         s => return Err(format!("unknown command {s}")),
     };
